@@ -19,7 +19,7 @@
    semantics (run_seq), the harness ties it on real concurrent histories. *)
 From Coq Require Import ZArith List Bool String.
 From Rbacx Require Import Value Wire Cond Target Policy PolicySet Compiler Oblig Engine
-     PolicyProofs PolicySetProofs RelCond RelCondProofs.
+     PolicyProofs PolicySetProofs EngineProofs RelCond RelCondProofs RelLocal.
 Import ListNotations.
 Local Open Scope string_scope.
 
@@ -379,4 +379,259 @@ Example c13_example_checkers :
 Proof.
   split; [intros q; exists (by_relation "viewer" q), 3; repeat split; auto|].
   vm_compute. split; reflexivity.
+Qed.
+
+(* ===== composed with C12: the relationship checker is the LOCAL checker ===== *)
+(* RelLocal.v: a Guard whose checker is rbacx.rebac.local.LocalRelationshipChecker.  The oracle of
+   the theorems above is instantiated with Rebac.check (C12's model) — on the canonical subject /
+   relation / resource STRINGS as they are (the local checker stores and compares the same
+   "type:id" strings; its only parsing, _split_ref, is Rebac.ref_type), the caveat registry
+   (predicates value -> option bool; None = raises) evaluated on the query's merged context, a
+   deadline oracle per query (within a decision a query is asked at most once: c13_at_most_once).
+   L = (store, rules, caveat predicates, max_depth, max_nodes), all arbitrary. *)
+Theorem c13_local_bridge : forall L hits q,
+  local_oracle L hits q =
+    Some (VBool (Rebac.check (Rebac.mkCfg (lc_store L) (lc_rules L) (reg_at (lc_preds L) (rq_ctx q))
+                                          (lc_max_depth L) (lc_max_nodes L))
+                             (hits q) (rq_subject q) (rq_relation q) (rq_resource q))) /\
+  (forall timeout, oracle_of timeout (local_sync L hits) q = local_oracle L hits q) /\
+  answer (local_oracle L hits) q = local_check L hits q.
+Proof. exact local_bridge. Qed.
+Print Assumptions c13_local_bridge.
+
+(* the merged context is what the caveats are judged on: in a derivation for the context ctx a
+   caveated tuple counts iff its name is registered and the predicate returns true on ctx *)
+Theorem c13_local_caveats_on_merged_ctx : forall L ctx name,
+  RebacProofs.caveat_ok (cfg_at L ctx) (Some name) <->
+  exists p, Rebac.alookup name (lc_preds L) = Some p /\ p ctx = Some true.
+Proof. exact caveat_ok_at. Qed.
+Print Assumptions c13_local_caveats_on_merged_ctx.
+
+(* SAFETY.  A rel leaf evaluated inside a Guard decision (any frame the decision can be in) is true
+   only if its operand has a canonical query q and the triple of q is derivable from the store
+   through the userset rewrites within max_depth steps (C12's derivability) — whatever max_depth,
+   max_nodes, the deadline oracle, unknown caveats or raising predicates.  Through the memo the
+   caveats were judged on the context of the logged call q', whose hash is that of q's context. *)
+Theorem c13_rel_never_true_without_derivation : forall ctx_hash L hits kvs expr env st st',
+  frame_ok ctx_hash (local_oracle L hits) st -> assoc "rel" kvs = Some expr ->
+  eval_cond frame (relh_frame ctx_hash true (Some (local_oracle L hits))) (VObj kvs) env st = (Ok true, st') ->
+  exists q q', rel_prepare expr env = Ok (Some q) /\ In q' (f_log st') /\
+    (rq_subject q', rq_relation q', rq_resource q') = (rq_subject q, rq_relation q, rq_resource q) /\
+    ctx_hash (rq_ctx q') = ctx_hash (rq_ctx q) /\
+    RebacProofs.derivable_within (cfg_at L (rq_ctx q')) (lc_max_depth L)
+                                 (rq_subject q', rq_relation q', rq_resource q').
+Proof. exact rel_never_true_without_derivation. Qed.
+Print Assumptions c13_rel_never_true_without_derivation.
+
+(* with a hash that separates contexts: the leaf's own canonical triple (subject from the request
+   or the override, relation, resource from the request or the override), the caveats judged on
+   context._rebac updated with the condition's ctx *)
+Theorem c13_rel_never_true_without_derivation_exact : forall ctx_hash L hits kvs expr env st st',
+  (forall a b, ctx_hash a = ctx_hash b -> a = b) ->
+  frame_ok ctx_hash (local_oracle L hits) st -> assoc "rel" kvs = Some expr ->
+  eval_cond frame (relh_frame ctx_hash true (Some (local_oracle L hits))) (VObj kvs) env st = (Ok true, st') ->
+  exists q, rel_prepare expr env = Ok (Some q) /\
+    RebacProofs.derivable_within (cfg_at L (rq_ctx q)) (lc_max_depth L)
+                                 (rq_subject q, rq_relation q, rq_resource q).
+Proof. exact rel_never_true_without_derivation_exact. Qed.
+Print Assumptions c13_rel_never_true_without_derivation_exact.
+
+(* a rel leaf without a canonical query — no relation name, an operand that is neither a string nor
+   an object, a canonicalisation that raises — is never true, under ANY handler, and asks nothing *)
+Theorem c13_rel_uncanonical_false : forall (S : Type) (h : rel_query -> S -> bool * S) kvs expr env st,
+  assoc "rel" kvs = Some expr ->
+  (rel_prepare expr env = Ok None -> eval_cond S h (VObj kvs) env st = (Ok false, st)) /\
+  ((forall q, rel_prepare expr env <> Ok (Some q)) ->
+     fst (eval_cond S h (VObj kvs) env st) <> Ok true /\ snd (eval_cond S h (VObj kvs) env st) = st).
+Proof. exact rel_uncanonical_false. Qed.
+Print Assumptions c13_rel_uncanonical_false.
+
+(* a canonical subject the store has no tuple for (e.g. "user:" of a request without subject id)
+   has no derivable relation, hence (by the safety theorem) no true rel leaf *)
+Theorem c13_rel_false_for_unknown_subject : forall L q,
+  (forall t, In t (lc_store L) -> Rebac.t_subj t <> rq_subject q) ->
+  ~ RebacProofs.derivable_within (cfg_at L (rq_ctx q)) (lc_max_depth L)
+                                 (rq_subject q, rq_relation q, rq_resource q).
+Proof. exact rel_false_for_unknown_subject. Qed.
+Print Assumptions c13_rel_false_for_unknown_subject.
+
+(* EXACTNESS.  Limits not binding for the leaf's query (the hypotheses of c12_exact: no deadline
+   hit, max_nodes at least Rebac.node_bound) and a checker answer that is a function of the memo
+   key (the hypothesis of c13_memo_transparent): the leaf evaluates to a bool, true IFF the
+   canonical triple is derivable within max_depth, the caveats judged on the merged context *)
+Theorem c13_rel_holds_iff_derivable : forall ctx_hash L hits kvs expr env q st,
+  frame_ok ctx_hash (local_oracle L hits) st ->
+  (forall q1 q2, key_of ctx_hash q1 = key_of ctx_hash q2 ->
+                 answer (local_oracle L hits) q1 = answer (local_oracle L hits) q2) ->
+  assoc "rel" kvs = Some expr -> rel_prepare expr env = Ok (Some q) ->
+  ((forall k, hits q k = false) /\
+   (Z.of_nat (Rebac.node_bound (cfg_at L (rq_ctx q)) (rq_subject q, rq_relation q, rq_resource q)) <= lc_max_nodes L)%Z) ->
+  exists b st',
+    eval_cond frame (relh_frame ctx_hash true (Some (local_oracle L hits))) (VObj kvs) env st = (Ok b, st') /\
+    (b = true <-> RebacProofs.derivable_within (cfg_at L (rq_ctx q)) (lc_max_depth L)
+                                               (rq_subject q, rq_relation q, rq_resource q)).
+Proof. exact rel_holds_iff_derivable. Qed.
+Print Assumptions c13_rel_holds_iff_derivable.
+
+(* the same under the plain oracle semantics (the form C01 / C11 are stated in): no memo, no
+   hypothesis on the hash *)
+Theorem c13_rel_holds_iff_derivable_pure : forall L hits kvs expr env q,
+  assoc "rel" kvs = Some expr -> rel_prepare expr env = Ok (Some q) ->
+  limits_not_binding L hits q ->
+  exists b, eval_cond unit (relh_pure (answer (local_oracle L hits))) (VObj kvs) env tt = (Ok b, tt) /\
+            (b = true <-> rel_derivable L q).
+Proof. exact rel_holds_iff_derivable_pure. Qed.
+Print Assumptions c13_rel_holds_iff_derivable_pure.
+
+(* spelled out for the short form {"rel": "<relation>"} and the extended form
+   {"rel": {"relation", "subject", "resource", "ctx"}} *)
+Theorem c13_rel_short_iff_derivable : forall ctx_hash L hits kvs env r s o c st,
+  let q := {| rq_subject := s; rq_relation := r; rq_resource := o; rq_ctx := c |} in
+  assoc "rel" kvs = Some (VStr r) -> String.eqb r "" = false ->
+  canon_subject env VNull = Ok s -> canon_resource env VNull = Ok o -> merged_ctx env VNull = Ok c ->
+  frame_ok ctx_hash (local_oracle L hits) st -> respects_key ctx_hash (local_oracle L hits) ->
+  limits_not_binding L hits q ->
+  exists b st',
+    eval_cond frame (relh_frame ctx_hash true (Some (local_oracle L hits))) (VObj kvs) env st = (Ok b, st') /\
+    (b = true <-> RebacProofs.derivable_within (cfg_at L c) (lc_max_depth L) (s, r, o)).
+Proof. exact rel_short_iff_derivable. Qed.
+Print Assumptions c13_rel_short_iff_derivable.
+
+Theorem c13_rel_extended_iff_derivable : forall ctx_hash L hits kvs ekvs env r s o c st,
+  let q := {| rq_subject := s; rq_relation := r; rq_resource := o; rq_ctx := c |} in
+  assoc "rel" kvs = Some (VObj ekvs) ->
+  py_str (py_or (get_key "relation" (VObj ekvs)) (VStr "")) = Some r -> String.eqb r "" = false ->
+  canon_subject env (get_key "subject" (VObj ekvs)) = Ok s ->
+  canon_resource env (get_key "resource" (VObj ekvs)) = Ok o ->
+  merged_ctx env (get_key "ctx" (VObj ekvs)) = Ok c ->
+  frame_ok ctx_hash (local_oracle L hits) st -> respects_key ctx_hash (local_oracle L hits) ->
+  limits_not_binding L hits q ->
+  exists b st',
+    eval_cond frame (relh_frame ctx_hash true (Some (local_oracle L hits))) (VObj kvs) env st = (Ok b, st') /\
+    (b = true <-> RebacProofs.derivable_within (cfg_at L c) (lc_max_depth L) (s, r, o)).
+Proof. exact rel_extended_iff_derivable. Qed.
+Print Assumptions c13_rel_extended_iff_derivable.
+
+(* when the local checker's answer is a function of the memo key: a hash that separates contexts;
+   or predicates and a deadline oracle that do not tell hash-equal contexts apart *)
+Theorem c13_local_respects_key : forall ctx_hash L hits,
+  ((forall a b, ctx_hash a = ctx_hash b -> a = b) -> respects_key ctx_hash (local_oracle L hits)) /\
+  ((forall a b, ctx_hash a = ctx_hash b -> forall p, In p (lc_preds L) -> snd p a = snd p b) ->
+   (forall q q', key_of ctx_hash q = key_of ctx_hash q' -> forall k, hits q k = hits q' k) ->
+   respects_key ctx_hash (local_oracle L hits)).
+Proof. exact local_respects_key_both. Qed.
+Print Assumptions c13_local_respects_key.
+
+(* RULES.  A rule whose condition is a rel leaf is applicable (C01 / C11's notion) only if the
+   leaf's canonical triple is derivable — whatever the limits; with the limits not binding, exactly
+   when it is and actions / resource match *)
+Theorem c13_local_applicable_only_if_derivable : forall L hits rule env ckvs expr,
+  get_key "condition" rule = VObj ckvs -> assoc "rel" ckvs = Some expr ->
+  applicable (answer (local_oracle L hits)) rule env ->
+  exists q, rel_prepare expr env = Ok (Some q) /\
+    RebacProofs.derivable_within (cfg_at L (rq_ctx q)) (lc_max_depth L)
+                                 (rq_subject q, rq_relation q, rq_resource q).
+Proof. exact local_applicable_only_if_derivable. Qed.
+Print Assumptions c13_local_applicable_only_if_derivable.
+
+Theorem c13_local_rel_rule_applicable_iff : forall L hits rule env ckvs expr q,
+  get_key "condition" rule = VObj ckvs -> assoc "rel" ckvs = Some expr ->
+  rel_prepare expr env = Ok (Some q) -> limits_not_binding L hits q ->
+  (applicable (answer (local_oracle L hits)) rule env <->
+   rel_derivable L q /\ applicable (fun _ => true) rule env).
+Proof. exact local_rel_rule_applicable_iff. Qed.
+Print Assumptions c13_local_rel_rule_applicable_iff.
+
+(* DECISIONS.  A Guard decision with the local checker that permits although the policy denies
+   with every rel node false rests on a logged canonical query whose triple is derivable — any
+   hash, any limits, any caveats *)
+Theorem c13_local_permit_rests_on_derivation : forall ctx_hash L hits oblig strict policy req resolved d fr,
+  decide_rel ctx_hash (Some (local_oracle L hits)) oblig strict policy req resolved = (GDecision d, fr) ->
+  d_allowed d = true ->
+  (forall d0, fst (guard_eval unit (relh_pure (fun _ => false)) oblig strict policy req resolved tt) = GDecision d0 ->
+              d_allowed d0 = false) ->
+  exists q, In q (f_log fr) /\ canonical_query strict policy req resolved q /\
+    RebacProofs.derivable_within (cfg_at L (rq_ctx q)) (lc_max_depth L)
+                                 (rq_subject q, rq_relation q, rq_resource q).
+Proof. exact local_permit_rests_on_derivation. Qed.
+Print Assumptions c13_local_permit_rests_on_derivation.
+
+(* C01 composed with C13 and C12: a permit is explained by an applicable, satisfied permit rule of
+   the policy the Guard holds; when the non-deny rules are rel-guarded (condition = a rel leaf), by
+   a derivable canonical triple.  Through the per-decision memo (and, _pure, without it). *)
+Theorem c13_local_permit_rule_derivable : forall ctx_hash L hits strict kvs req resolved d fr,
+  respects_key ctx_hash (local_oracle L hits) -> tree_ok (VObj kvs) ->
+  decide_rel ctx_hash (Some (local_oracle L hits)) builtin_oblig strict (VObj kvs) req resolved = (GDecision d, fr) ->
+  d_allowed d = true ->
+  (forall rule eff, In rule (all_rules (VObj kvs)) -> rule_effect rule = Some eff -> eff <> "deny" ->
+     exists ckvs expr, get_key "condition" rule = VObj ckvs /\ assoc "rel" ckvs = Some expr) ->
+  exists env rule ckvs expr q,
+    build_env strict req resolved = Some env /\ In rule (all_rules (VObj kvs)) /\
+    applicable (answer (local_oracle L hits)) rule env /\ d_obligations d = rule_obls rule /\
+    get_key "condition" rule = VObj ckvs /\ assoc "rel" ckvs = Some expr /\
+    rel_prepare expr env = Ok (Some q) /\
+    RebacProofs.derivable_within (cfg_at L (rq_ctx q)) (lc_max_depth L)
+                                 (rq_subject q, rq_relation q, rq_resource q).
+Proof. exact local_permit_rule_derivable. Qed.
+Print Assumptions c13_local_permit_rule_derivable.
+
+Theorem c13_local_permit_rule_derivable_pure : forall L hits strict kvs req resolved d,
+  tree_ok (VObj kvs) ->
+  guard_eval unit (relh_pure (answer (local_oracle L hits))) builtin_oblig strict (VObj kvs) req resolved tt
+    = (GDecision d, tt) ->
+  d_allowed d = true ->
+  (forall rule eff, In rule (all_rules (VObj kvs)) -> rule_effect rule = Some eff -> eff <> "deny" ->
+     rel_guarded rule) ->
+  exists env rule ckvs expr q,
+    build_env strict req resolved = Some env /\ In rule (all_rules (VObj kvs)) /\
+    applicable (answer (local_oracle L hits)) rule env /\ d_obligations d = rule_obls rule /\
+    get_key "condition" rule = VObj ckvs /\ assoc "rel" ckvs = Some expr /\
+    rel_prepare expr env = Ok (Some q) /\ rel_derivable L q.
+Proof. exact local_permit_rule_derivable_pure. Qed.
+Print Assumptions c13_local_permit_rule_derivable_pure.
+
+(* ----- non-vacuity (RelLocal.v: rl_store, rl_rules, rl_policy) ----- *)
+(* store: folder:a parent doc:7; folder:root parent folder:a; user:alice owner folder:root;
+   user:bob viewer doc:8; user:carol viewer doc:7 [caveat "office": ctx["ip"] == "10.0.0.1"].
+   rules (doc and folder): viewer = this | editor | parent->viewer; editor = this | owner.
+   policy: permit read on doc if {"rel": "viewer"}; requests on doc 7 *)
+Example c13_local_example_inheritance :
+  rl_allowed (rl_decide 8 10000 rl_no_deadline "alice" []) = Some true /\
+  rl_log (rl_decide 8 10000 rl_no_deadline "alice" []) = [("user:alice", "viewer", "doc:7", VObj [])] /\
+  rl_allowed (rl_decide 8 10000 rl_no_deadline "bob" []) = Some false /\
+  rl_log (rl_decide 8 10000 rl_no_deadline "bob" []) = [("user:bob", "viewer", "doc:7", VObj [])].
+Proof. exact rel_local_example_inheritance. Qed.
+
+(* the derivable relation (4 rewrite steps) is denied when a limit fires: depth, nodes, deadline *)
+Example c13_local_example_limits :
+  rl_allowed (rl_decide 4 10000 rl_no_deadline "alice" []) = Some true /\
+  rl_allowed (rl_decide 3 10000 rl_no_deadline "alice" []) = Some false /\
+  rl_allowed (rl_decide 8 3 rl_no_deadline "alice" []) = Some false /\
+  rl_allowed (rl_decide 8 10000 (fun _ k => Nat.eqb k 2) "alice" []) = Some false.
+Proof. exact rel_local_example_limits. Qed.
+
+(* context._rebac reaches the caveat predicate; raising predicate / unregistered caveat: false *)
+Example c13_local_example_caveat :
+  rl_allowed (rl_decide 8 10000 rl_no_deadline "carol" [("_rebac", VObj [("ip", VStr "10.0.0.1")])]) = Some true /\
+  rl_allowed (rl_decide 8 10000 rl_no_deadline "carol" [("_rebac", VObj [("ip", VStr "8.8.8.8")])]) = Some false /\
+  rl_allowed (rl_decide 8 10000 rl_no_deadline "carol" []) = Some false /\
+  rl_allowed (decide_rel rl_hash (Some (local_oracle (mkLocal rl_store rl_rules [] 8 10000) rl_no_deadline))
+                         builtin_oblig false rl_policy (rl_req "carol" [("_rebac", VObj [("ip", VStr "10.0.0.1")])]) None)
+    = Some false.
+Proof. exact rel_local_example_caveat. Qed.
+
+(* the hypotheses of the exactness and of the engine-level theorems hold on the example, and both
+   sides of the equivalence occur *)
+Example c13_local_example_hypotheses :
+  limits_not_binding (rl_local 8 10000) rl_no_deadline (rl_query "alice") /\
+  rel_derivable (rl_local 8 10000) (rl_query "alice") /\
+  ~ rel_derivable (rl_local 8 10000) (rl_query "bob") /\
+  (exists kvs, rl_policy = VObj kvs /\ tree_ok (VObj kvs) /\
+     forall rule eff, In rule (all_rules (VObj kvs)) -> rule_effect rule = Some eff -> eff <> "deny" -> rel_guarded rule) /\
+  (forall ctx_hash md mn, respects_key ctx_hash (local_oracle (mkLocal rl_store rl_rules [] md mn) rl_no_deadline)).
+Proof.
+  split; [exact (proj1 (proj2 rel_local_example_limits_not_binding))|].
+  split; [exact rel_local_example_derivable|].
+  split; [exact (proj1 rel_local_example_not_derivable)|].
+  exact rel_local_example_policy_ok.
 Qed.
